@@ -39,6 +39,14 @@
        :pattern ((bits.allboolFrom (pack.beSwap b n) 0 n))))
   :lemmas (allbool_beSwap_fwd allbool_beSwap_bwd))
 
+; the denoted integer depends only on the n bits
+(lemma beval_ext
+  (forall ((a (Array Int Int)) (c (Array Int Int)) (n Int))
+    (! (=> (and (<= 0 n) (= (mod n 8) 0) (forall ((t Int)) (=> (and (<= 0 t) (< t n)) (= (select a t) (select c t)))))
+           (= (pack.beval a n) (pack.beval c n)))
+       :pattern ((pack.beval a n) (pack.beval c n))))
+  :lemmas (binvalFrom_ext beSwap_sel))
+
 ; ---------------- canonical on-chain packings (C03, C08) ----------------
 ; insertion: uint32 startIndex || uint256 preRoot || uint256 postRoot || uint256 idComms[0] || ...   (big-endian bytes,
 ; bits LSB-first inside each byte); bit t of the message:
